@@ -633,4 +633,278 @@ Section ReadProofs.
       split; [discriminate|]. change (b :: got ++ fbytes f1) with ((b :: got) ++ fbytes f1).
       rewrite Eg, Ef. apply takeN_dropN.
   Qed.
+
+  (* ---------------------------------------------------------- truncated streams *)
+  (* complete members followed by a non-empty proper prefix of a member;
+     second index: everything the stream could expand to *)
+  Inductive tstream : list Z -> list Z -> Prop :=
+  | ts_cut k m p t u : member k m p -> m = t ++ u -> t <> [] -> u <> [] -> tstream t p
+  | ts_cons k m p raw pay : member k m p -> tstream raw pay -> tstream (m ++ raw) (p ++ pay).
+
+  Definition sstall (s : rstate) : nat :=
+    match r_rd _ _ s with RStream _ st _ _ => dstall st | _ => 0%nat end.
+
+  Definition tgood (s : rstate) (pay : list Z) (X : nat) : Prop :=
+    match r_rd _ _ s with
+    | RStream k st inbuf fin =>
+      exists pin pout, DInv k st pin pout /\
+        ((exists raw' pay', inbuf ++ fbytes (r_file _ _ s) = pin ++ raw' /\ tstream raw' pay' /\
+                            pay = pout ++ pay' /\
+                            X = (length (inbuf ++ fbytes (r_file _ _ s)) + length raw' + 1)%nat) \/
+         (exists u, pin = (inbuf ++ fbytes (r_file _ _ s)) ++ u /\ u <> [] /\ pay = pout /\
+                    X = length (inbuf ++ fbytes (r_file _ _ s))))
+    | _ => False
+    end.
+
+  Lemma tstream_nonempty raw pay : tstream raw pay -> raw <> [].
+  Proof.
+    intros H. destruct H as [k m p t u Hm E Ht Hu|k m p raw pay Hm Ht]; [exact Ht|].
+    pose proof (member_nonempty _ _ _ Hm). destruct m; [congruence|discriminate].
+  Qed.
+
+  Lemma magic_first_byte k k' b l l' :
+    starts_with (magic_of k) (b :: l) = true -> starts_with (magic_of k') (b :: l') = true -> k = k'.
+  Proof.
+    intros H1 H2.
+    destruct k, k'; try reflexivity; exfalso;
+      unfold magic_of, gz_magic, bz_magic, xz_magic in *; cbn [starts_with] in *;
+      apply andb_true_iff in H1; apply andb_true_iff in H2; lia.
+  Qed.
+
+  Lemma detect_magic_sound h k : detect_magic h = Some k -> starts_with (magic_of k) h = true.
+  Proof.
+    unfold detect_magic.
+    destruct (starts_with gz_magic h) eqn:E1; [intros H; inversion H; exact E1|].
+    destruct (starts_with bz_magic h) eqn:E2; [intros H; inversion H; exact E2|].
+    destruct (starts_with xz_magic h) eqn:E3; [intros H; inversion H; exact E3|discriminate].
+  Qed.
+
+  Lemma factory_trunc f w already raw pay req :
+    already ++ fbytes f = raw -> tstream raw pay ->
+    req = true \/ (exists k0, starts_with (magic_of k0) raw = true) ->
+    (read_factory f w already req = None /\ req = true) \/
+    (exists rdr f1 w1 X, read_factory f w already req = Some (rdr, f1, w1) /\
+       tgood (mkr _ _ f1 w1 rdr) pay X /\ (X <= 2 * length raw)%nat).
+  Proof.
+    intros Hraw Hts Hreq. rewrite read_factory_eq.
+    destruct (fact_header f already) as [header f1] eqn:EH.
+    apply fact_header_spec in EH. destruct EH as [Hh Hl]. rewrite Hraw in Hh. clear Hraw.
+    pose proof (tstream_nonempty _ _ Hts) as Hrne.
+    assert (Hhne : header <> []).
+    { intros E. subst header. destruct Hl as [Hl|Hl].
+      - assert (0 < kMagicSize) by (vm_compute; reflexivity). rewrite len_nil in Hl. lia.
+      - simpl in Hh. congruence. }
+    (* a magic at the beginning of the stream is visible in the header *)
+    assert (Hvis : forall k0, starts_with (magic_of k0) raw = true -> starts_with (magic_of k0) header = true).
+    { intros k0 Hk0. destruct Hl as [Hl|Hl].
+      - assert (header = firstn (length header) raw) as ->.
+        { rewrite <- Hh. rewrite firstn_app, firstn_all, Nat.sub_diag. simpl. symmetry. apply app_nil_r. }
+        apply starts_with_take; [exact Hk0|].
+        pose proof (magic_len_le k0). unfold len in Hl. lia.
+      - rewrite Hl, app_nil_r in Hh. subst header. exact Hk0. }
+    destruct header as [|hb header]; [congruence|].
+    destruct Hts as [k m p t u Hm E Ht Hu|k m p raw' pay' Hm Hts'].
+    - (* the cut member itself *)
+      destruct (detect_magic (hb :: header)) as [k'|] eqn:ED.
+      + pose proof (detect_magic_sound _ _ ED) as Hs'.
+        assert (k' = k).
+        { pose proof (member_magic _ _ _ Hm) as Hmag. subst m.
+          rewrite <- Hh in Hmag. simpl in Hmag.
+          eapply magic_first_byte; [exact Hs'|exact Hmag]. }
+        subst k'.
+        pose proof (dnew_inv w k m p Hm) as HD.
+        destruct (dnew w k) as [st w'] eqn:EN. simpl in HD.
+        right. eexists _, f1, w', _. split; [reflexivity|]. split.
+        * unfold tgood. simpl r_rd. simpl r_file. exists m, p. split; [exact HD|].
+          right. exists u. cbn [app] in Hh |- *.
+          split; [rewrite E, <- Hh; reflexivity|]. repeat split; auto.
+        * simpl r_file. cbn [app] in Hh |- *. rewrite Hh. lia.
+      + destruct req.
+        * left. split; reflexivity.
+        * exfalso. destruct Hreq as [Hq|[k0 Hk0]]; [discriminate|].
+          apply Hvis in Hk0. apply detect_magic_of in Hk0. congruence.
+    - pose proof (member_magic _ _ _ Hm) as Hmag.
+      assert (Hsw : starts_with (magic_of k) (hb :: header) = true)
+        by (apply Hvis; apply starts_with_app; exact Hmag).
+      rewrite (detect_magic_of _ _ Hsw).
+      pose proof (dnew_inv w k m p Hm) as HD.
+      destruct (dnew w k) as [st w'] eqn:EN. simpl in HD.
+      right. eexists _, f1, w', _. split; [reflexivity|]. split.
+      + unfold tgood. simpl r_rd. simpl r_file. exists m, p. split; [exact HD|].
+        left. exists raw', pay'. repeat split; auto.
+      + simpl r_file. rewrite Hh. rewrite app_length.
+        pose proof (member_nonempty _ _ _ Hm) as Hmn.
+        destruct m; [congruence|]. simpl. lia.
+  Qed.
+
+  Lemma process_read_stall_gz ni no : process_read KGz Z_BUF_ERROR ni no = PThrow.
+  Proof. reflexivity. Qed.
+  Lemma process_read_stall_bz : process_read KBz BZ_OK true true = PThrow.
+  Proof. reflexivity. Qed.
+  Lemma process_read_stall_xz ni no : process_read KXz LZMA_BUF_ERROR ni no = PThrow.
+  Proof. reflexivity. Qed.
+  Lemma process_read_xz_ok ni no : process_read KXz LZMA_OK ni no = PContinue.
+  Proof. reflexivity. Qed.
+
+  Lemma rd_trunc : forall fuel s pay X amount,
+    tgood s pay X -> 0 < amount -> ((stall_max + 1) * X + sstall s < fuel)%nat ->
+    (exists e, rd fuel s amount = RErr _ _ e /\ e <> EHang) \/
+    (exists out s' pay' X', rd fuel s amount = ROk _ _ out s' /\ out <> [] /\ pay = out ++ pay' /\
+        tgood s' pay' X' /\ (X' <= X)%nat).
+  Proof.
+    induction fuel as [|fuel IH]; intros s pay X amount Hg Ha Hf; [lia|].
+    destruct s as [f w rdr]. destruct rdr as [| |buf|k st inbuf fin]; unfold tgood in Hg; simpl in Hg; try contradiction.
+    destruct Hg as [pin [pout [HD Hcase]]].
+    unfold sstall in Hf. simpl in Hf.
+    rewrite rd_stream_eq.
+    destruct (amount =? 0) eqn:E0; [apply N.eqb_eq in E0; lia|].
+    destruct (refill k inbuf f fin) as [[inbuf1 f1] fin1] eqn:ER.
+    apply refill_spec in ER. destruct ER as [Hre Heof].
+    destruct (cap_pos k amount Ha) as [Hcap Hcapa].
+    remember (match k with KXz => amount | _ => N.min kSizeMax amount end) as cap.
+    assert (Hag : agree inbuf1 pin).
+    { destruct Hcase as [[raw' [pay' [Hraw _]]]|[u [Hpin _]]].
+      - rewrite <- Hre in Hraw. eapply app_agree; eauto.
+      - left. exists (fbytes f1 ++ u). rewrite Hpin, <- Hre. rewrite app_assoc. reflexivity. }
+    pose proof (dcall_spec k st (read_action k fin1) inbuf1 cap pin pout HD Hag Hcap) as HC.
+    cbv zeta in HC. cbv zeta.
+    remember (dcall k st (read_action k fin1) inbuf1 cap) as r.
+    destruct HC as [Hu1 [Hu2 [Ho [[pout' Hpo] HC]]]].
+    pose proof (dstall_bound (c_st r)) as Hsb.
+    assert (Hlen : (length (dropN (c_used r) inbuf1 ++ fbytes f1) + N.to_nat (c_used r)
+                    = length (inbuf ++ fbytes f))%nat).
+    { rewrite <- Hre. rewrite <- (dropN_app_le (c_used r) inbuf1 (fbytes f1) Hu1).
+      pose proof (len_dropN (c_used r) (inbuf1 ++ fbytes f1)) as LD.
+      pose proof (len_app inbuf1 (fbytes f1)) as LA.
+      unfold len in LD, LA, Hu1. lia. }
+    destruct HC as [[Hrc [Hused Hout]]|[[Hrc [HD' Hprog]]|[Hin [Hpin [Hus0 [Hout0 Hst]]]]]].
+    - (* END *)
+      clear Hpo. rewrite Hrc, process_read_end.
+      destruct Hcase as [[raw' [pay' [Hraw [Hts [Hpay HX]]]]]|[u [Hpinu [Hu [Hpay HX]]]]].
+      + rewrite <- Hre in Hraw.
+        assert (Hrest : dropN (c_used r) inbuf1 ++ fbytes f1 = raw').
+        { rewrite (drop_both _ _ _ _ (c_used r) Hraw Hu1 Hu2).
+          rewrite Hused. rewrite dropN_all by lia. reflexivity. }
+        destruct (factory_trunc f1 w (dropN (c_used r) inbuf1) raw' pay' true Hrest Hts (or_introl eq_refl))
+          as [[HF _]|[rdr [f2 [w2 [X2 [HF [Hg2 HX2]]]]]]].
+        * rewrite HF. left. exists ECompressed. split; [reflexivity|discriminate].
+        * rewrite HF.
+          assert (Hlt : (X2 < X)%nat).
+          { rewrite HX. rewrite <- Hre. rewrite Hraw. rewrite app_length. lia. }
+          destruct (c_out r) as [|ob out] eqn:EO.
+          -- destruct (IH (mkr _ _ f2 w2 rdr) pay' X2 amount Hg2 Ha) as [[e [HR He]]|[out [s' [pay'' [X' [HR [Hne [Hp [Hg' HX']]]]]]]]].
+             { pose proof (dstall_bound st).
+               assert (sstall (mkr _ _ f2 w2 rdr) <= stall_max)%nat.
+               { unfold sstall. simpl. destruct rdr; try lia. apply dstall_bound. }
+               nia. }
+             ++ left. exists e. rewrite HR. auto.
+             ++ right. exists out, s', pay'', X'. rewrite HR. subst pout. simpl in Hpay.
+                repeat split; auto; try lia. rewrite Hpay. exact Hp.
+          -- right. exists (ob :: out), (mkr _ _ f2 w2 rdr), pay', X2.
+             repeat split; auto; try lia; try discriminate.
+             rewrite Hpay, <- Hout. reflexivity.
+      + (* the member is cut: it cannot end *)
+        exfalso. rewrite Hpinu, <- Hre in Hused. rewrite !len_app in Hused.
+        pose proof (len_pos _ Hu). lia.
+    - (* OK with progress *)
+      rewrite Hrc.
+      assert (Hnn : is_nil inbuf1 && is_nil (c_out r) = false).
+      { destruct inbuf1; [|reflexivity]. simpl. destruct (c_out r); [|reflexivity].
+        exfalso. rewrite len_nil in Hu1. destruct Hprog as [Hp|Hp]; [lia|congruence]. }
+      rewrite (process_read_ok _ _ _ Hnn).
+      assert (Hpo2 : dropN (len (c_out r)) pout = pout') by (rewrite Hpo; apply dropN_app_len).
+      rewrite Hpo2 in HD'.
+      set (s1 := mkr _ _ f1 w (RStream k (c_st r) (dropN (c_used r) inbuf1) fin1)).
+      assert (Hgood1 : exists X1, tgood s1 (dropN (len (c_out r)) pay) X1 /\ (X1 + N.to_nat (c_used r) <= X)%nat /\
+                 pay = c_out r ++ dropN (len (c_out r)) pay).
+      { destruct Hcase as [[raw' [pay' [Hraw [Hts [Hpay HX]]]]]|[u [Hpinu [Hu [Hpay HX]]]]].
+        - rewrite <- Hre in Hraw.
+          assert (Hd : dropN (len (c_out r)) pay = pout' ++ pay').
+          { rewrite Hpay, Hpo. rewrite <- app_assoc. apply dropN_app_len. }
+          exists (length (dropN (c_used r) inbuf1 ++ fbytes f1) + length raw' + 1)%nat.
+          split; [|split; [lia|]].
+          + unfold tgood, s1. simpl. exists (dropN (c_used r) pin), pout'. split; [exact HD'|].
+            left. exists raw', pay'. split; [apply drop_both; assumption|].
+            split; [exact Hts|]. split; [exact Hd|reflexivity].
+          + rewrite Hd. rewrite Hpay, Hpo. rewrite <- app_assoc. reflexivity.
+        - assert (Hd : dropN (len (c_out r)) pay = pout').
+          { rewrite Hpay, Hpo. apply dropN_app_len. }
+          exists (length (dropN (c_used r) inbuf1 ++ fbytes f1)).
+          split; [|split; [lia|]].
+          + unfold tgood, s1. simpl. exists (dropN (c_used r) pin), pout'. split; [exact HD'|].
+            right. exists u. split; [|split; [exact Hu|split; [exact Hd|reflexivity]]].
+            rewrite Hpinu, <- Hre.
+            rewrite <- app_assoc. rewrite (dropN_app_le _ inbuf1 _ Hu1). rewrite app_assoc. reflexivity.
+          + rewrite Hd. rewrite Hpay, Hpo. reflexivity. }
+      destruct Hgood1 as [X1 [Hg1 [HX1 Hpayeq]]].
+      destruct (c_out r) as [|ob out] eqn:EO.
+      + assert (Hup : 0 < c_used r) by (destruct Hprog as [Hp|Hp]; [exact Hp|congruence]).
+        destruct (IH s1 _ X1 amount Hg1 Ha) as [[e [HR He]]|[out [s' [pay'' [X' [HR [Hne [Hp [Hg' HX']]]]]]]]].
+        { unfold sstall, s1. simpl. pose proof (dstall_bound st). nia. }
+        * left. exists e. fold s1. rewrite HR. auto.
+        * right. exists out, s', pay'', X'. fold s1. rewrite HR.
+          repeat split; auto; try lia; try (rewrite Hpayeq; simpl; exact Hp).
+      + right. exists (ob :: out), s1, (dropN (len (ob :: out)) pay), X1.
+        fold s1. repeat split; auto; try discriminate; try lia.
+    - (* stall: no input, member unfinished, nothing buffered *)
+      subst inbuf1. pose proof (Heof eq_refl) as Hf1.
+      destruct Hcase as [[raw' [pay' [Hraw [Hts [Hpay HX]]]]]|[u [Hpinu [Hu [Hpay HX]]]]].
+      + exfalso. rewrite <- Hre in Hraw. rewrite Hf1 in Hraw. simpl in Hraw.
+        symmetry in Hraw. apply app_eq_nil in Hraw. destruct Hraw. contradiction.
+      + rewrite Hout0. simpl is_nil.
+        destruct k; simpl in Hst.
+        * rewrite Hst, process_read_stall_gz. left. exists EGz. split; [reflexivity|discriminate].
+        * destruct Hst as [Hst _]. rewrite Hst, process_read_stall_bz. left. exists EBz. split; [reflexivity|discriminate].
+        * destruct Hst as [Hst|[Hst [HDs Hlt]]].
+          -- rewrite Hst, process_read_stall_xz. left. exists EXz. split; [reflexivity|discriminate].
+          -- rewrite Hst, process_read_xz_ok. rewrite Hus0.
+             set (s1 := mkr _ _ f1 w (RStream KXz (c_st r) (dropN 0 []) fin1)).
+             assert (Hg1 : tgood s1 pay X).
+             { unfold tgood, s1. simpl. exists pin, pout. split; [exact HDs|].
+               right. exists u. rewrite Hf1. rewrite <- Hre in Hpinu, HX. rewrite Hf1 in Hpinu, HX.
+               repeat split; auto. }
+             destruct (IH s1 pay X amount Hg1 Ha) as [[e [HR He]]|[out [s' [pay'' [X' [HR [Hne [Hp [Hg' HX']]]]]]]]].
+             { unfold sstall, s1. simpl. lia. }
+             ++ left. exists e. fold s1. rewrite HR. auto.
+             ++ right. exists out, s', pay'', X'. fold s1. rewrite HR. repeat split; auto.
+  Qed.
+
+  Lemma sstall_bound s : (sstall s <= stall_max)%nat.
+  Proof. unfold sstall. destruct (r_rd _ _ s); try lia. apply dstall_bound. Qed.
+
+  Lemma read_all_trunc : forall n fuel s pay X amt i,
+    tgood s pay X -> (forall j, 0 < amt j) ->
+    ((stall_max + 1) * X + stall_max < fuel)%nat -> (length pay < n)%nat ->
+    exists e d z, read_all n fuel s amt i = AErr e d z /\ e <> EHang /\ exists rest, pay = d ++ rest.
+  Proof.
+    induction n as [|n IHn]; intros fuel s pay X amt i Hg Hamt Hf Hn; [lia|].
+    simpl.
+    pose proof (sstall_bound s) as Hsb.
+    destruct (rd_trunc fuel s pay X (amt i) Hg (Hamt i)) as [[e [HR He]]|[out [s' [pay' [X' [HR [Hne [Hp [Hg' HX']]]]]]]]]; [lia| |].
+    - rewrite HR. exists e, [], []. split; [reflexivity|]. split; [exact He|]. exists pay. reflexivity.
+    - rewrite HR. destruct out as [|b out]; [congruence|].
+      destruct (IHn fuel s' pay' X' amt (S i) Hg' Hamt) as [e [d [z [HA [He [rest Hr]]]]]].
+      + nia.
+      + subst pay. rewrite app_length in Hn. simpl in Hn. lia.
+      + rewrite HA. exists e, ((b :: out) ++ d), (len (b :: out) :: z).
+        split; [reflexivity|]. split; [exact He|]. exists rest. subst pay. rewrite Hr.
+        rewrite app_assoc. reflexivity.
+  Qed.
+
+  (* a stream that begins with a magic number and ends inside a member is an
+     error: never end of file (a shorter success), never fuel exhaustion (a hang);
+     what was delivered before the error is a prefix of the real payload *)
+  Theorem truncated_is_error_proof : forall f w raw pay k0 amt n fuel,
+    tstream raw pay -> starts_with (magic_of k0) raw = true -> fbytes f = raw ->
+    (forall j, 0 < amt j) ->
+    (length pay < n)%nat -> ((stall_max + 1) * (2 * length raw) + stall_max < fuel)%nat ->
+    exists e d z, read_file n fuel f w amt = AErr e d z /\ e <> EHang /\ exists rest, pay = d ++ rest.
+  Proof.
+    intros f w raw pay k0 amt n fuel Hts Hk0 Hf Hamt Hn Hfu.
+    unfold CompressDefs.read_file, rc_open.
+    destruct (factory_trunc f w [] raw pay false) as [[HF Hq]|[rdr [f1 [w1 [X [HF [Hg HX]]]]]]]; auto.
+    - right. exists k0. exact Hk0.
+    - discriminate.
+    - rewrite HF. apply read_all_trunc with (X := X); auto. nia.
+  Qed.
 End ReadProofs.
